@@ -75,6 +75,8 @@ type Adversary struct {
 	PInternal, PDeliver, PTimeout, PDup, PCrash, PRestart, PByz float64
 	MaxCrashes                                                  int
 	Crashes                                                     int
+	LateCrashes                                                 int                       // template: crash after a later signature than the locking precommit
+	Withhold                                                    func(e *Env, to int) bool // FairSuffix does not offer these (a partition kept up by a template)
 	seenPool                                                    int
 	offered                                                     map[int]map[int]string
 	claimed                                                     map[string]bool
@@ -439,6 +441,9 @@ func (a *Adversary) FairSuffix(target int64, maxSteps int) (steps int, ok bool) 
 					continue
 				}
 				if a.offered[i][e.ID] == at {
+					continue
+				}
+				if a.Withhold != nil && a.Withhold(e, i) {
 					continue
 				}
 				if best < 0 || rank[e.Kind] < rank[n.Pool[best].Kind] {
